@@ -115,8 +115,14 @@ func (m *Model) Rearrange(perm []int) {
 			}
 		}
 	})
+	// Note: named sets can refer to each other, so the same node can be reachable from several sets.
+	seen := make(map[*TokenSet]bool)
 	for _, set := range m.Sets {
 		set.ForEach(func(ts *TokenSet) {
+			if seen[ts] {
+				return
+			}
+			seen[ts] = true
 			if nt := ts.Symbol - terms; nt >= 0 {
 				ts.Symbol = terms + perm[nt]
 			}
